@@ -6,6 +6,7 @@ package main
 // signing root (plain crypto/sha256, no fastssz) used as implementation-side monitor.
 
 import (
+	"encoding/json"
 	"bufio"
 	"crypto/sha256"
 	"encoding/binary"
@@ -84,6 +85,9 @@ func safeTasks(ts []requests.SigningTask) (ob string) {
 			ob = "panic"
 		}
 	}()
+	if bz, err := json.Marshal(ts); err == nil {
+		probe("requests.TasksToMessages(" + string(bz) + ")")
+	}
 	ms, err := requests.TasksToMessages(ts)
 	if err != nil {
 		return "err"
@@ -240,8 +244,43 @@ func runSszDiff(outDir string, seed int64, tier string) {
 			}
 			toks = append(toks, hs(t.MessageID), hs(t.File), pl, fmt.Sprint(t.RangeStart), fmt.Sprint(t.RangeEnd))
 		}
-		emit(strings.Join(toks, " "), safeTasks(ts))
+		ob := safeTasks(ts)
+		if strings.HasPrefix(ob, "panic") {
+			st.Monitors = append(st.Monitors, fmt.Sprintf("C18 never_panics: TasksToMessages panicked on %s", truncate(strings.Join(toks, " "), 200)))
+		}
+		emit(strings.Join(toks, " "), ob)
 		st.Tasks++
+	}
+	// C18: ranges nobody would propose: reversed, negative, astronomically large (the expansion is run by every
+	// node on every proposal and by the airgapped machine on every signing request, without Validate())
+	big := []int{math.MaxInt64, math.MaxInt64 - 1, math.MinInt64, math.MinInt64 + 1, math.MaxInt32, math.MinInt32, 1 << 40, -(1 << 40), 18632, 18631, 0, -1, 5}
+	curated := map[[2]int]bool{{math.MaxInt64, 0}: true, {5, 0}: true, {0, -1}: true, {math.MinInt64, math.MaxInt64}: true, {0, math.MaxInt64}: true,
+		{18631, math.MaxInt64}: true, {18632, math.MaxInt64}: true, {-1, 5}: true, {math.MaxInt64 - 1, math.MaxInt64}: true,
+		{math.MinInt64, math.MinInt64 + 1}: true, {1 << 40, math.MaxInt64}: true, {18631, 1 << 40}: true, {math.MaxInt32, math.MinInt32}: true}
+	for _, a := range big {
+		for _, b := range big {
+			if tier != "thorough" && !curated[[2]int{a, b}] {
+				continue
+			}
+			ts := []requests.SigningTask{{MessageID: "r", File: "f", RangeStart: a, RangeEnd: b}}
+			if rng.Intn(3) == 0 {
+				ts = append([]requests.SigningTask{{MessageID: "p", File: "f", Payload: []byte{1}}}, ts...)
+			}
+			toks := []string{"tasks", fmt.Sprint(len(ts))}
+			for _, t := range ts {
+				pl := "-"
+				if t.Payload != nil {
+					pl = hx(t.Payload)
+				}
+				toks = append(toks, hs(t.MessageID), hs(t.File), pl, fmt.Sprint(t.RangeStart), fmt.Sprint(t.RangeEnd))
+			}
+			ob := safeTasks(ts)
+			if strings.HasPrefix(ob, "panic") {
+				st.Monitors = append(st.Monitors, fmt.Sprintf("C18 never_panics: TasksToMessages panicked on the range [%d,%d)", a, b))
+			}
+			emit(strings.Join(toks, " "), ob)
+			st.Tasks++
+		}
 	}
 	ops.Flush()
 	obs.Flush()
